@@ -268,6 +268,7 @@ def run(prog, chk):
     fold_rule(prog, chk)
     refill_transparency(prog, chk)
     source_accounting(prog, chk)
+    drained_mark(prog, chk)
     r3 = chk.rule("R3-window-rebased", "whenever get_more_chars moves the buffered data it re-bases text_start, tvalue_start, "
                   "next_char and buffer_limit", primary=False, floor=2)
     g = prog.fn(REFILL_ROOT)
@@ -484,3 +485,75 @@ def source_accounting(prog, chk):
                      "the CR at L%s is rewritten to a newline also when it is the last character of the read (the guard `p + 1 < "
                      "end` failed), and nothing is stored in the scanner to say so: if the next read starts with the LF of the same "
                      "CR LF pair, that LF is delivered as a second line terminator" % a.get("l"))
+
+
+def drained_mark(prog, chk):
+    """R7: the byte-to-character source marks itself drained (a positive end-of-file status, after which it delivers nothing
+    more) only where the converter consumed all buffered bytes: on every path from the conversion call to such a store the
+    converter's status was tested to be something other than U_BUFFER_OVERFLOW_ERROR (it stopped because the destination
+    was full, with input left over)."""
+    r7 = chk.rule("R7-drained-only-when-converted", "a character source stores its `drained` end-of-file mark only on paths where "
+                  "the converter status excludes U_BUFFER_OVERFLOW_ERROR (unconverted bytes would be dropped otherwise)", floor=1)
+    ovf = None
+    for e in prog.enums.values():
+        for c in e.get("consts", e.get("values", [])) if isinstance(e, dict) else []:
+            if c.get("name") == "U_BUFFER_OVERFLOW_ERROR":
+                ovf = c.get("v", c.get("value"))
+    n = 0
+    for fn in prog.all_functions():
+        convs = fn.calls_to("ucnv_toUnicode")
+        if not convs:
+            continue
+        for (cb, ci, cr, call) in convs:
+            st = strip(call["args"][-1]) if call.get("args") else None
+            if not (isinstance(st, dict) and st.get("k") == "un" and st.get("op") == "&" and path(st.get("e"))):
+                raise Broken("%s: status argument of ucnv_toUnicode is not `&variable`" % fn.name)
+            svar = path(st.get("e"))
+            if ovf is None:
+                # the constant as the code spells it
+                for (b, i, r, x) in fn.eval_sites("ref"):
+                    if x.get("name") == "U_BUFFER_OVERFLOW_ERROR" and "cv" in x:
+                        ovf = x["cv"]
+            if ovf is None:
+                ovf = 15
+
+            def excl(cnd):
+                t = cfgq.cmp_test(cnd, lambda e: path(strip(e)) == svar)
+                if t is None:
+                    return None
+                op, c = t
+                if (op, c) == ("==", ovf):
+                    return "false"
+                if (op, c) == ("!=", ovf):
+                    return "true"
+                if op in ("==",) and c != ovf:
+                    return "true"
+                if op in (">", ">=") and c < ovf:       # U_FAILURE(x): x > U_ZERO_ERROR
+                    return "false" if (c if op == ">" else c - 1) < ovf else None
+                if op in ("<", "<=") and (c if op == "<=" else c - 1) < ovf:   # U_SUCCESS(x): x <= U_ZERO_ERROR
+                    return "true"
+                return None
+            edges = cfgq.guard_edges(fn, excl)
+            marks = []
+            for (b, i, r, a) in fn.eval_sites("asg"):
+                lp = path(strip(a.get("lhs"))) or ""
+                v = const(a.get("rhs"))
+                if lp.endswith("eof_status") and a.get("op") == "=" and v is not None and v > 0:
+                    marks.append((b, i, a))
+            for (b, i, a) in marks:
+                n += 1
+                if b.id == cb.id:
+                    r7.violation(fn.file, fn.name, a.get("l"), "drained-unchecked:%s" % fn.name,
+                                 "the drained mark is stored right after the conversion without testing its status")
+                    continue
+                free = cfgq.reach(fn, [cb.id], (), edges)
+                if b.id in free:
+                    r7.violation(fn.file, fn.name, a.get("l"), "drained-with-unconverted-input:%s" % fn.name,
+                                 "`%s = %s` at L%s can be reached from the conversion at L%s on a path where `%s` may be "
+                                 "U_BUFFER_OVERFLOW_ERROR (the destination filled up before the buffered bytes were all converted): "
+                                 "the source is marked drained, later reads deliver nothing, and the rest of the final block is "
+                                 "silently dropped" % (path(strip(a.get("lhs"))), const(a.get("rhs")), a.get("l"), call.get("l"), svar))
+                else:
+                    r7.ok("%s:L%s" % (fn.name, a.get("l")), "status tested against overflow on every path from the conversion (L%s)" % call.get("l"))
+    if n < 1:
+        raise Broken("no drained mark (positive eof_status store) found after a ucnv_toUnicode call")
